@@ -251,6 +251,8 @@ transform (const Box<Vec3<S>>& box, const Matrix44<T>& m, Box<Vec3<S>>& result)
     points[0][2] = points[2][2] = points[4][2] = points[6][2] = box.min[2];
     points[1][2] = points[3][2] = points[5][2] = points[7][2] = box.max[2];
 
+    result.makeEmpty ();
+
     for (int i = 0; i < 8; i++)
         result.extendBy (points[i] * m);
 }
